@@ -907,3 +907,10 @@ V("c04d-python-scale-guard-constant-renamed", "C04", "silent",
   (PLAINH, "    if scale_factor < 1e-8:\n        return matrix, 1.0\n", "    if scale_factor < 1e-10:\n        return matrix, 1.0\n"))
 V("c11g-partition-by-worker-count", "C11", {"rule": "C11g", "contains": "worker count read"},
   (PLAINH, "    n = sum(occupation_numbers)\n\n    if n == 0:\n        return 1.0\n", "    n = sum(occupation_numbers)\n    jobs = nb.get_num_threads()\n\n    if n == 0:\n        return 1.0 * (jobs > 0)\n", 1))
+
+# --- C03e outcome keys accumulate
+RESULTF = "piquasso/api/result.py"
+V("c03e-counts-overwritten", "C03", {"rule": "C03e", "contains": "get_counts"},
+  (RESULTF, "            ret[branch.outcome] = ret.get(branch.outcome, 0) + int(\n                branch.frequency * shots\n            )\n", "            ret[branch.outcome] = int(branch.frequency * shots)\n"))
+V("c03e-counts-augmented-form", "C03", "silent",
+  (RESULTF, "            ret[branch.outcome] = ret.get(branch.outcome, 0) + int(\n                branch.frequency * shots\n            )\n", "            ret.setdefault(branch.outcome, 0)\n            ret[branch.outcome] += int(branch.frequency * shots)\n"))
